@@ -127,7 +127,7 @@ def cases(tier, seed, prep=None):
         kind = "file" if i % 3 != 2 else "directory"
         out.append({"seed": seed * 1000003 + 580000 + i, "offer": kind, "name_i": [0, NAMES.index("good.txt")][i % 2] if "good.txt" in NAMES else 0,
                     "out_i": rng.choice([0, 0, OUTS.index("pre.dir")]), "accept": rng.choice([True, True, False]),
-                    "answer": "y", "pre": "absent", "tmp_sibling": True,
+                    "answer": "y", "pre": "absent", "tmp_sibling": ["file", "file", "link", "dangling"][i % 4],
                     "members": pick_members(rng) if kind == "directory" else []})
     # the destination name already exists as a symbolic link that leads out of the working directory
     for i in range(90 if tier == "quick" else 3000):
@@ -276,8 +276,16 @@ def _run(spec, world, base):
         for dd in ([cwd] if out is None else [cwd, os.path.join(cwd, "pre.dir")]):
             tp = os.path.join(dd, bn + ".tmp")
             if os.path.isdir(dd) and not os.path.lexists(tp):
-                with open(tp, "wb") as f:
-                    f.write(b"the user's own file, not ours to touch")
+                how = spec["tmp_sibling"]
+                outside = os.path.join(base, "case", "outside-dir")
+                if how == "file":
+                    with open(tp, "wb") as f:
+                        f.write(b"the user's own file, not ours to touch")
+                elif os.path.isdir(outside):
+                    # ... or a link of the user's that leads somewhere else entirely
+                    os.symlink(os.path.join(outside, "keep.txt" if how == "link" else "not-there-either"), tp)
+                else:
+                    continue
                 tmp_sibling = 1
     if spec["offer"] == "file":
         payload = rng.randbytes(rng.choice([0, 10, 20000]))
